@@ -223,7 +223,7 @@ func (x *reasm) c01r1() {
 				if isApp {
 					base, elems, _, _ := appendParts(c)
 					f, recv := loadedField(base)
-					ok = f == x.fMsgs && recv == ssa.Value(x.add.Params[0]) && len(elems) == 1 && elems[0] == ssa.Value(x.add.Params[1])
+					ok = f == x.fMsgs && isParamValue(recv, x.add.Params[0]) && len(elems) == 1 && isParamValue(elems[0], x.add.Params[1])
 				}
 				r.Check(ok, key, a.Instr.Pos(), "e.msgs = append(e.msgs, msg) with Add's own parameter", "store to msgs in Add is not append(e.msgs, <parameter>): "+Term(a.Val))
 			default:
@@ -261,7 +261,7 @@ func (x *reasm) c01r1() {
 		ok := s.Kind == "static" && x.w.ownedBy(s.Caller, x.put)
 		if ok {
 			args := s.Instr.(ssa.CallInstruction).Common().Args
-			ok = len(args) == 2 && args[1] == ssa.Value(x.put.Params[1])
+			ok = len(args) == 2 && isParamValue(args[1], x.put.Params[1])
 		}
 		r.Check(ok, "caller of Add: "+fnName(s.Caller), s.Instr.Pos(), "Put passes its own msg parameter", "Add called from "+fnName(s.Caller)+" ("+s.Kind+") or with a value other than the pushed message")
 	}
@@ -402,7 +402,7 @@ func (x *reasm) evictionLoops(ruleID, clause string) {
 					ok = isPhi && len(elems) == 1 && Term(elems[0]) == "p0.events[p0.seqs[0]]" &&
 						computedIn(elems[0], l.Body) &&
 						p.order(c) < p.order(removes[0].Instr) &&
-						removes[0].Instr.(ssa.CallInstruction).Common().Args[0] == ssa.Value(fn.Params[0])
+						isParamValue(removes[0].Instr.(ssa.CallInstruction).Common().Args[0], fn.Params[0])
 					if ok {
 						// the appended slice must be what flows round the loop and is returned
 						ok = flowsToPhi(c, base.(*ssa.Phi))
@@ -598,7 +598,7 @@ func (x *reasm) c01r6() {
 				e0, ok0 := args[1].(*ssa.Extract)
 				e1, ok1 := args[2].(*ssa.Extract)
 				ok = ok0 && ok1 && e0.Tuple == ssa.Value(src) && e0.Index == 0 && e1.Tuple == ssa.Value(src) && e1.Index == 1 &&
-					args[0] == ssa.Value(fn.Params[0]) && Term(src.Call.Args[0]) == "p0.list" && p.order(src) < p.order(cbs[0].Instr)
+					isParamValue(args[0], fn.Params[0]) && len(fullArgs(&src.Call)) > 0 && Term(fullArgs(&src.Call)[0]) == "p0.list" && p.order(src) < p.order(cbs[0].Instr)
 			}
 			r.Check(ok, key, fn.Pos(), "callback(evicted, lost) of the same CleanUp/Clear call", "eviction results and callback are not paired one-to-one: "+describePath(p))
 		}
@@ -676,7 +676,7 @@ func (x *reasm) c01r7() {
 	r.Rule("C01.R7", "a nil message returns before Put", 1)
 	calls := callsIn(x.pushMessage, x.put)
 	for _, c := range calls {
-		r.Check(HoldsAt(c.Block(), "p1 != nil") && c.Common().Args[1] == ssa.Value(x.pushMessage.Params[1]),
+		r.Check(HoldsAt(c.Block(), "p1 != nil") && isParamValue(c.Common().Args[1], x.pushMessage.Params[1]),
 			"PushMessage→Put", c.Pos(), "Put(msg) dominated by msg != nil", "Put is reached without the msg != nil guard, or with another value")
 	}
 	r.Check(len(calls) == 1, "PushMessage calls Put once", x.pushMessage.Pos(), "", fmt.Sprintf("%d calls of Put in PushMessage", len(calls)))
@@ -1017,7 +1017,7 @@ func propC02(r *Run, w *World) {
 			r.Fail("Put inserts", x.put.Pos(), "no path of Put stores seqs")
 		}
 		calls := callsNamedIn(x.sortFn, "sort.Sort")
-		okS := len(calls) == 1 && stripConv(calls[0].Common().Args[0]) == ssa.Value(x.sortFn.Params[0])
+		okS := len(calls) == 1 && isParamValue(stripConv(calls[0].Common().Args[0]), x.sortFn.Params[0])
 		r.Check(okS, "Sort→sort.Sort(p)", x.sortFn.Pos(), "", "Sort does not pass its receiver to sort.Sort")
 	}
 
@@ -1149,7 +1149,7 @@ func propC03(r *Run, w *World) {
 	inv := w.Invokes(x.stream, "EventsLost")
 	for _, s := range inv {
 		cc := s.Instr.(ssa.CallInstruction).Common()
-		ok := x.w.ownedBy(s.Caller, x.callback) && HoldsAt(s.Instr.Block(), "p2 > 0") && len(cc.Args) == 1 && cc.Args[0] == ssa.Value(x.callback.Params[2])
+		ok := x.w.ownedBy(s.Caller, x.callback) && HoldsAt(s.Instr.Block(), "p2 > 0") && len(cc.Args) == 1 && isParamValue(cc.Args[0], x.callback.Params[2])
 		r.Check(ok, "EventsLost in "+fnName(s.Caller), s.Instr.Pos(), "under lost > 0, with the lost parameter", "EventsLost is not invoked under lost > 0 with callback's lost parameter")
 	}
 	r.Check(len(inv) == 1, "single EventsLost site", x.callback.Pos(), "", fmt.Sprintf("%d invoke sites of EventsLost", len(inv)))
@@ -1612,7 +1612,7 @@ func propC10(r *Run, w *World) {
 		stores := 0
 		for _, e := range p.Events {
 			if st, ok := e.Instr.(*ssa.Store); ok && e.Kind == EvStore {
-				if fa, ok := st.Addr.(*ssa.FieldAddr); ok && fieldOfAddr(fa) == x.fComplete && fa.X == ssa.Value(x.add.Params[0]) {
+				if fa, ok := st.Addr.(*ssa.FieldAddr); ok && fieldOfAddr(fa) == x.fComplete && isParamValue(fa.X, x.add.Params[0]) {
 					stores++
 				}
 			}
@@ -1655,7 +1655,7 @@ func propC10(r *Run, w *World) {
 		ok := x.w.ownedBy(s.Caller, x.newReassembler) && s.Kind == "static"
 		if ok {
 			args := s.Instr.(ssa.CallInstruction).Common().Args
-			ok = args[0] == ssa.Value(x.newReassembler.Params[0]) && args[1] == ssa.Value(x.newReassembler.Params[1])
+			ok = isParamValue(args[0], x.newReassembler.Params[0]) && isParamValue(args[1], x.newReassembler.Params[1])
 		}
 		r.Check(ok, "newEventList called from "+fnName(s.Caller), s.Instr.Pos(), "NewReassembler passes maxInFlight, timeout", "newEventList is not called with NewReassembler's own parameters")
 	}
@@ -1685,8 +1685,28 @@ func (x *reasm) evictionPredicate(ruleID string) {
 				continue
 			}
 			ifi := e.Instr.(*ssa.If)
+			if via, ok := e.Via.(*ssa.Call); ok {
+				// a condition inside an inlined predicate: what must be fresh are the arguments of
+				// the call (the predicate itself reads memory when it runs, inside the loop)
+				for _, a := range via.Call.Args {
+					if !computedIn(a, l.Body) {
+						r.Fail(key+" stale", via.Pos(), "the predicate deciding "+e.Text+" is given a value computed outside the loop (stale across iterations): "+Term(a))
+					}
+				}
+				continue
+			}
 			if !computedIn(ifi.Cond, l.Body) {
-				r.Fail(key+" stale", ifi.Pos(), "condition "+e.Text+" uses a value computed outside the loop (stale across iterations)")
+				var outside []string
+				var ins []ssa.Instruction
+				leafInstrs(ifi.Cond, map[ssa.Value]bool{}, &ins)
+				for _, in := range ins {
+					if _, isAl := in.(*ssa.Alloc); !isAl && !l.Body[in.Block()] {
+						if v, ok := in.(ssa.Value); ok {
+							outside = append(outside, fmt.Sprintf("%s [%T in b%d]", Term(v), in, in.Block().Index))
+						}
+					}
+				}
+				r.Fail(key+" stale", ifi.Pos(), "condition "+e.Text+" uses a value computed outside the loop (stale across iterations): "+strings.Join(outside, ", "))
 			}
 		}
 		switch p.End {
@@ -1880,7 +1900,7 @@ func propC19(r *Run, w *World) {
 				r.Check(ok, key, ret.Pos(), "(reassembler, nil)", "non-nil Stream does not yield a Reassembler: "+describePath(p))
 				// stream stored is the parameter
 				sts := storesTo(x.newReassembler, AddrTerm(ret.Results[0])+".stream")
-				r.Check(len(sts) == 1 && sts[0].Val == ssa.Value(x.newReassembler.Params[2]), key+" stream stored", ret.Pos(), "", "the Stream parameter is not what is stored")
+				r.Check(len(sts) == 1 && isParamValue(sts[0].Val, x.newReassembler.Params[2]), key+" stream stored", ret.Pos(), "", "the Stream parameter is not what is stored")
 			} else {
 				r.Fail(key, ret.Pos(), "path does not test stream == nil: "+describePath(p))
 			}
